@@ -17,6 +17,7 @@ mod drv_random;
 mod drv_replay;
 mod drv_sat;
 mod drv_real;
+mod drv_realobs;
 
 use serde_json::Value;
 
@@ -89,6 +90,17 @@ fn main()
             };
             run::write_lines(&out, &recs);
             println!("{}", serde_json::json!({"records" : recs.len()}));
+        },
+        "realobs" =>
+        {
+            let out = arg(&args, "--out", "trace.ndjson");
+            let n : usize = arg(&args, "--n", "5").parse().unwrap();
+            let seed : u64 = arg(&args, "--seed", "1").parse().unwrap();
+            let bin = arg(&args, "--bin", "/verif/harness/target/release/ruler_real");
+            let base = arg(&args, "--dir", "/verif/work/realfs");
+            let lines = drv_realobs::real_histories(&bin, &base, n, seed);
+            run::write_lines(&out, &lines);
+            println!("{}", serde_json::json!({"scenarios" : n, "events" : lines.len(), "counts" : run::counts(&lines)}));
         },
         "realfs" | "serve" =>
         {
